@@ -68,8 +68,8 @@ def run(ctx):
     cases, n = J.generate(ctx)
 
     rep = vlib.run_driver("drv_json", ["cases", "--cases", cases, "--out", ctx.path("cases")], env=ctx.env())
-    rep2 = vlib.run_driver("drv_json", ["random", "--n", 400 if q else 30000, "--out", ctx.path("random")], env=ctx.env())
-    rep3 = vlib.run_driver("drv_json", ["fuzz", "--n", 3000 if q else 200000, "--cases", cases, "--out", ctx.path("fuzz")],
+    rep2 = vlib.run_driver("drv_json", ["random", "--n", 400 if q else 10000, "--out", ctx.path("random")], env=ctx.env())
+    rep3 = vlib.run_driver("drv_json", ["fuzz", "--n", 3000 if q else 100000, "--cases", cases, "--out", ctx.path("fuzz")],
                            env=ctx.env(), timeout=3000)
 
     def corrupt_rt(e):           # one tag of the data set that came back changed
